@@ -75,9 +75,13 @@ class Buffer(NamedUIDObject):
         # store quantity
         self._loading_tasks[task] = quantity
         # the buffer is loaded at the task completion time
-        # append a new level level and a new level change time
-        self._level_changes_time.append(z3.Int(f"{self.name}_sc_time_{task.name}"))
-        self._buffer_levels.append(z3.Int(f"{self.name}_level_{task.name}"))
+        # append a new level level and a new level change time. The names differ from
+        # those of the unloading side: a task may unload a buffer when it starts
+        # and load the same buffer when it completes
+        self._level_changes_time.append(
+            z3.Int(f"{self.name}_sc_time_load_{task.name}")
+        )
+        self._buffer_levels.append(z3.Int(f"{self.name}_level_load_{task.name}"))
 
 
 class NonConcurrentBuffer(Buffer):
